@@ -432,7 +432,6 @@ var harness = &simcheck.Harness{
 		"flock conflicts are per open file description, so two descriptors of one OS process conflict exactly like two processes (measured)",
 		"holders never nest lock acquisitions (the workload cannot deadlock by itself)",
 	},
-	ManualGC:         true,
 	RequiredCounters: []string{"flock_calls", "flock_acquired", "probe_lock_request_blocked"},
 }
 
